@@ -240,6 +240,8 @@ def decode_queries(case, r, n_spec_only=False):
     qs = case.get("queries", []) + ([] if n_spec_only else case.get("xqueries", []))
     out = []
     n = len(case["docs"])
+    if len(vals) != len(qs):
+        return {"modelfault": ["answers", len(vals), "queries", len(qs)]}   # never compare a truncated answer list
     for q, v in zip(qs, vals):
         if v[0] == "ok":
             if q[0] == "avg":
